@@ -60,6 +60,13 @@ theorem hlslSanitize_noTrail (l : Name) : NoTrail (hlslSanitize l) := by
         · exact unnamed_noTrail
         · exact getLast?_trim _
 
+theorem noTrail_prefix (p r : Name) (hr : r ≠ []) (h : NoTrail r) : NoTrail (p ++ r) := by
+  unfold NoTrail at *
+  rw [List.getLast?_append]
+  cases hl : r.getLast? with
+  | none => exact absurd (List.getLast?_eq_none_iff.mp hl) hr
+  | some c => simpa [hl] using h
+
 theorem glslSanitize_noTrail (l : Name) : NoTrail (glslSanitize l) := by
   unfold glslSanitize
   split
@@ -67,7 +74,10 @@ theorem glslSanitize_noTrail (l : Name) : NoTrail (glslSanitize l) := by
   · simp only []
     split
     · exact unnamed_noTrail
-    · exact getLast?_trim _
+    · rename_i hne
+      split
+      · exact noTrail_prefix _ _ (by intro h; simp [h] at hne) (getLast?_trim _)
+      · exact getLast?_trim _
 
 /-- MSL: `call` replaces an empty sanitized name by "unnamed". -/
 def mslSanitizeCall (l : Name) : Name :=
